@@ -37,3 +37,21 @@ package query
 //@   at after parseCondition ghost complete = true
 //@   at after parseAndOr ghost complete = true
 //@   loop 0 invariant complete ==> !expectingMore
+
+// ---- what a query selects (abstract): its key prefix test and its condition on the record.
+// Matches is their conjunction on the record's own key (proved); the two parts are opaque.
+//@ spec qKey(q *Query, key string) bool
+//@ spec qRec(q *Query, r record.Record) bool
+//@ func (*Query).MatchesKey
+//@   trusted
+//@   pure
+//@   ensures r0 == qKey(q, dbKey)
+//@ func (*Query).MatchesRecord
+//@   trusted
+//@   pure
+//@   ensures r0 == qRec(q, r)
+//@ func (*Query).Matches
+//@   requires q != nil && r != nil
+//@   inline
+//@   pure
+//@   ensures r0 == (qKey(q, recKey(r)) && qRec(q, r))
